@@ -148,7 +148,14 @@ func (g *GaussianSampler) read(pol Poly, f func(a, b, c uint64) uint64) {
 			}
 
 			for j, qi := range moduli {
-				coeffs[j][i] = f(coeffs[j][i], coeff.Mod(normInt, Qi[j]).Uint64(), qi)
+
+				c := coeff.Mod(normInt, Qi[j]).Uint64()
+
+				if g.montgomery {
+					c = MForm(c, qi, r.SubRings[j].BRedConstant)
+				}
+
+				coeffs[j][i] = f(coeffs[j][i], c, qi)
 			}
 		}
 
@@ -180,13 +187,13 @@ func (g *GaussianSampler) read(pol Poly, f func(a, b, c uint64) uint64) {
 					c = qi - c
 				}
 
+				if g.montgomery {
+					c = MForm(c, qi, r.SubRings[j].BRedConstant)
+				}
+
 				coeffs[j][i] = f(coeffs[j][i], c, qi)
 			}
 		}
-	}
-
-	if g.montgomery {
-		g.baseRing.MForm(pol, pol)
 	}
 }
 
